@@ -234,3 +234,87 @@ Proof.
   - apply Forall_forall. intros s Hs. apply in_map_iff in Hs. destruct Hs as (i & <- & Hi).
     apply render_item_flat. rewrite forallb_forall in Hitems. now apply Hitems.
 Qed.
+
+(* ---------------------------------------------------------------------------------------- *)
+(* lines: class, attributes, __init__, the whole stub                                       *)
+(* ---------------------------------------------------------------------------------------- *)
+Definition pair_ok (kt : str * str) : bool := is_ident (fst kt) && typestr_ok (snd kt).
+
+Lemma init_def_ok : forall init, forallb pair_ok init = true -> def_ok (init_def init) = true.
+Proof.
+  intros init H. unfold def_ok, init_def, items_of. cbn [m_name m_args a_args a_vararg a_kwonly a_kwarg map app].
+  cbn [plain fst snd nonempty forallb item_ok]. rewrite !app_nil_r.
+  replace (is_ident s_init) with true by reflexivity. replace (is_ident s_self) with true by reflexivity.
+  cbn [andb]. induction init as [|[k t] r IH]; [reflexivity|].
+  cbn [forallb] in H. apply andb_true_iff in H. destruct H as [H1 H2].
+  cbn [map forallb some_snd plain fst snd item_ok]. unfold pair_ok in H1. cbn [fst snd] in H1. now rewrite H1, (IH H2).
+Qed.
+
+Lemma mapO_typed : forall init, mapO typed (map some_snd init) = Some init.
+Proof.
+  induction init as [|[k t] r IH]; [reflexivity|]. cbn [map mapO some_snd typed fst snd]. now rewrite IH.
+Qed.
+
+Lemma parse_init_render : forall init,
+  forallb pair_ok init = true -> parse_init (render_def (init_def init)) = Some init.
+Proof.
+  intros init H. unfold parse_init. rewrite (parse_def_render _ (init_def_ok _ H)).
+  unfold init_def. cbn [m_name m_ret m_args a_vararg a_kwonly a_kwarg a_args].
+  rewrite !str_eqb_refl. apply mapO_typed.
+Qed.
+
+Lemma parse_class_render : forall c, is_ident c = true -> parse_class (s_class ++ c ++ s_base) = Some c.
+Proof.
+  intros c H. unfold parse_class. rewrite strip_prefix_app.
+  rewrite span_id_app; [|now apply ident_chars|reflexivity].
+  now rewrite H, str_eqb_refl.
+Qed.
+
+Lemma parse_attr_render : forall kt, is_ident (fst kt) = true -> parse_attr (render_attr kt) = Some kt.
+Proof.
+  intros [k t] H. cbn [fst] in H. unfold parse_attr, render_attr, indent, ann_str. cbn [fst snd].
+  rewrite strip_prefix_app. rewrite span_id_app; [|now apply ident_chars|reflexivity].
+  now rewrite H, strip_prefix_app.
+Qed.
+
+Lemma parse_attrs_render : forall attrs rest,
+  forallb pair_ok attrs = true ->
+  parse_attrs (map render_attr attrs ++ [] :: rest) = Some (attrs, rest).
+Proof.
+  induction attrs as [|kt r IH]; intros rest H; [reflexivity|].
+  cbn [forallb] in H. apply andb_true_iff in H. destruct H as [H1 H2].
+  unfold pair_ok in H1. apply andb_true_iff in H1. destruct H1 as [Hk _].
+  cbn [map app parse_attrs]. rewrite (parse_attr_render _ Hk), (IH rest H2).
+  unfold render_attr, indent, s_indent. reflexivity.
+Qed.
+
+Lemma mapO_parse_defs : forall ms, forallb def_ok ms = true -> mapO parse_def (map render_def ms) = Some ms.
+Proof.
+  induction ms as [|d r IH]; cbn [forallb map mapO]; intros H; [reflexivity|].
+  apply andb_true_iff in H. destruct H as [H1 H2]. now rewrite (parse_def_render _ H1), (IH H2).
+Qed.
+
+Definition stub_ok (s : stub) : bool :=
+  is_ident (st_class s) && forallb pair_ok (st_attrs s) && forallb pair_ok (st_init s) && forallb def_ok (st_methods s).
+
+Theorem parse_render : forall s, stub_ok s = true -> parse_stub (render s) = Some s.
+Proof.
+  intros [c attrs init ms] H. unfold stub_ok in H. cbn [st_class st_attrs st_init st_methods] in H.
+  apply andb_true_iff in H. destruct H as [H Hms]. apply andb_true_iff in H. destruct H as [H Hinit].
+  apply andb_true_iff in H. destruct H as [Hc Hattrs].
+  unfold render, parse_stub. cbn [st_class st_attrs st_init st_methods].
+  rewrite (parse_class_render _ Hc). cbn [app]. rewrite (parse_attrs_render _ _ Hattrs).
+  rewrite (parse_init_render _ Hinit).
+  destruct ms as [|m ms']; [reflexivity|].
+  change (map render_def (m :: ms')) with (render_def m :: map render_def ms').
+  change (render_def m :: map render_def ms') with (map render_def (m :: ms')).
+  remember (m :: ms') as ms eqn:E.
+  assert (exists x xs, map render_def ms = x :: xs) as (x & xs & Ex) by (subst; cbn [map]; eauto).
+  rewrite Ex, <- Ex. now rewrite (mapO_parse_defs _ Hms).
+Qed.
+
+Example parse_render_satisfiable :
+  stub_ok (mk_stub (sa "Foo") [(sa "a", sa "typing.Dict[str, int]")] [(sa "a", sa "typing.Dict[str, int]")]
+             [mk_mdef (sa "m") (mk_args [(s_self, None); (sa "x", Some (sa "int"))] None [(sa "k", Some s_any)] (Some (sa "kw")))
+                      (Some (sa "None"))]) = true.
+Proof. reflexivity. Qed.
